@@ -172,6 +172,15 @@ func (d *Directory) AddTimeBucket(tbk *io.TimeBucketKey, f *io.TimeBucketInfo) (
 		}
 	}
 
+	// all year files of a bucket must share one schema: a bucket that already has
+	// data files can only get another year's file with the same schema
+	if existing, err2 := d.GetLatestTimeBucketInfoFromKey(tbk); err2 == nil && existing != nil {
+		if existing.GetRecordType() != f.GetRecordType() || existing.GetTimeframe() != f.GetTimeframe() ||
+			fmt.Sprint(existing.GetDataShapes()) != fmt.Sprint(f.GetDataShapes()) {
+			return fmt.Errorf("bucket %s already exists with a different schema", tbk.GetItemKey())
+		}
+	}
+
 	d.Lock()
 	defer d.Unlock()
 
